@@ -352,7 +352,11 @@ XercesParserLiaison::destroyDocument(DOMDocument_Type*  theDocument)
         if ((*i).second.isDeprecated() == false &&
             (*i).second.m_wrapper->getXercesDocument() == theDocument)
         {
+            // This erases the entry, so the iterator is no longer
+            // valid, and there is one wrapper per document...
             destroyDocument((XalanDocument*)(*i).first);
+
+            break;
         }
     }
 }
